@@ -70,11 +70,51 @@ TYPES = {"int": int, "float": float, "str": str, "bool": bool, "list": list, "tu
 
 
 class Interp:
-    def __init__(self, selfn: str, params: Dict[str, Any]):
+    def __init__(self, selfn: str, params: Dict[str, Any], prog=None, module=None, depth: int = 0):
         self.selfn = selfn
         self.env: Dict[str, Any] = dict(params)
         self.attrs: Dict[str, Any] = {}
         self.steps = 0
+        self.prog, self.module, self.depth = prog, module, depth
+
+    def call_package_function(self, name: str, args, kw):
+        """a module-level function of the package called by its bare name: interpreted recursively (depth <= 3)"""
+        if self.prog is None or self.module is None or self.depth >= 3:
+            return UNK
+        r = self.prog.resolve_name(self.module, name)
+        g = r if hasattr(r, "node") and hasattr(r, "params") and getattr(r, "cls", None) is None else None
+        if g is None:
+            return UNK
+        a = g.node.args
+        if a.vararg or a.kwarg or len(args) > len(g.params):
+            return UNK
+        env = {}
+        for p_, v_ in zip(g.params, args):
+            env[p_] = v_
+        for k_, v_ in kw.items():
+            if k_ not in g.params or k_ in env:
+                return UNK
+            env[k_] = v_
+        for p_ in g.params:
+            if p_ not in env:
+                d = g.param_default(p_)
+                if not isinstance(d, ast.Constant):
+                    return UNK
+                env[p_] = d.value
+        # module-level constants of the callee's module
+        for cn, cv in g.module.assigns.items():
+            if isinstance(cv, ast.Constant) and cn not in env:
+                env[cn] = cv.value
+        sub = Interp("§noself", env, self.prog, g.module, self.depth + 1)
+        try:
+            sub.block(list(g.node.body))
+        except _Signal as s_:
+            if s_.kind == "return":
+                return s_.value
+            if s_.kind == "raise":
+                raise
+            return UNK
+        return None
 
     # -------------------------------------------------------------- statements
     def poison(self, stmts) -> None:
@@ -468,7 +508,9 @@ class Interp:
                     return SAFE[fn.id](*args, **kw)
                 except Exception:
                     return UNK
-            return UNK
+            if any(a is UNK for a in args) or any(v is UNK for v in kw.values()):
+                return UNK
+            return self.call_package_function(fn.id, args, kw)
         if isinstance(fn, ast.Attribute):
             # numpy.array / asarray of nested lists
             if isinstance(fn.value, ast.Name) and fn.value.id in ("np", "numpy") and fn.attr in ("array", "asarray") and len(args) == 1:
@@ -554,7 +596,10 @@ def tables(ctx) -> List[Tuple[Tuple[int, int, Optional[int]], Dict[str, Any]]]:
         params = {"name": "lw", "rows": rows, "columns": columns, "min_volume": 0, "max_volume": 100, "initial_volumes": UNK, "virtual_rows": vr, "component_names": None}
         for p in f.params[1:]:
             params.setdefault(p, UNK)
-        it = Interp(selfn, params)
+        for cn, cv in f.module.assigns.items():
+            if isinstance(cv, ast.Constant):
+                params.setdefault(cn, cv.value)
+        it = Interp(selfn, params, ctx.prog, f.module)
         try:
             it.block([s for s in f.node.body])
         except _Signal as s:
@@ -592,7 +637,7 @@ def verdict(ctx, attr: str) -> Tuple[str, str]:
     return "holds", f"`{attr}` equals the prescribed table for all {n} geometries of the evaluation table (bounded argument)"
 
 
-def run_function(f, params: Dict[str, Any]) -> Tuple[str, Any]:
+def run_function(f, params: Dict[str, Any], prog=None) -> Tuple[str, Any]:
     """Interpret a (helper-expanded) function body for concrete arguments: ('return', value) | ('raise', None) | ('unknown', why).
     Raising guards whose test is UNKNOWN are assumed to pass, so 'raise' means: a guard that could be evaluated rejected the call."""
     selfn = f.params[0] if f.cls is not None and f.params else "§noself"
@@ -601,7 +646,10 @@ def run_function(f, params: Dict[str, Any]) -> Tuple[str, Any]:
         if p not in env and p != selfn:
             d = f.param_default(p)
             env[p] = d.value if isinstance(d, ast.Constant) else UNK
-    it = Interp(selfn, env)
+    for cn, cv in f.module.assigns.items():
+        if isinstance(cv, ast.Constant):
+            env.setdefault(cn, cv.value)
+    it = Interp(selfn, env, prog, f.module)
     try:
         it.block(list(f.node.body))
     except _Signal as s:
@@ -611,3 +659,26 @@ def run_function(f, params: Dict[str, Any]) -> Tuple[str, Any]:
             return "raise", None
         return "unknown", s.kind
     return "return", None
+
+
+def grid_helpers_verdict(ctx, name: str) -> Tuple[str, str]:
+    """make_well_array(R, C) / make_well_index_dict(R, C) of transform.py evaluated for a table of shapes and compared with
+    the prescribed grid  [[<letter r><c+1:02d>]]  /  {id: (r, c)}."""
+    g = ctx.prog.func(name)
+    if g is None:
+        return "unknown", "helper not found"
+    n = 0
+    for R, C in ((1, 1), (2, 3), (3, 2), (8, 12), (26, 2), (1, 12), (4, 1)):
+        kind, val = run_function(g, {g.params[0]: R, g.params[1]: C}, ctx.prog)
+        if kind != "return" or not _no_unknown(val.data if isinstance(val, NPArr) else val) or (isinstance(val, dict) and not all(_no_unknown(x) for x in val.values())):
+            return "unknown", f"{name}({R}, {C}) could not be evaluated (construct outside the interpreter's fragment)"
+        if name == "make_well_array":
+            want = [[f"{ALPHABET[r]}{c + 1:02d}" for c in range(C)] for r in range(R)]
+            got = _deep_list(val.data if isinstance(val, NPArr) else val)
+        else:
+            want = {f"{ALPHABET[r]}{c + 1:02d}": (r, c) for r in range(R) for c in range(C)}
+            got = {k: (tuple(v) if isinstance(v, (list, tuple)) else v) for k, v in val.items()} if isinstance(val, dict) else val
+        if got != want:
+            return "refuted", f"{name}({R}, {C}) evaluates to {str(got)[:90]}; the property requires {str(want)[:90]}"
+        n += 1
+    return "holds", f"{name}(R, C) equals the prescribed grid for all {n} shapes of the evaluation table (bounded argument)"
